@@ -33,5 +33,15 @@ def run(ctx):
                 # reader vs writers moving items between array and extension list / growing
                 jobs.append((dict(cfg, init='1.2.3.4.5'), [['del 2', 'ins 6 66', 'ext 1'], ['get 4', 'get 5'], ['get 6', 'get 3']], 'dfs', n, ctx['seed'], ('--pb', '2')))
                 jobs.append((cfg, [vhm_program(rng, 1, 30, keys=tuple(range(1, 12)))[0]], 'opseq', 1, ctx['seed'], ()))
+            # lock-free readers walking the extension chain while items of the chain (head / middle / tail) or array items backed by the
+            # chain are removed: bucket with 3 array items + 3 extension items (constant hash), every position is removed by some job
+            for k in range(4 if thorough else 2):
+                rem = rng.sample([1, 2, 3, 4, 5, 6], 2)
+                w = ['%s %d' % (rng.choice(['del', 'ext']), x) for x in rem]
+                others = [x for x in (1, 2, 3, 4, 5, 6) if x not in rem]
+                r1 = ['get %d' % rng.choice(others), 'get %d' % rng.choice(others)]
+                r2 = ['get %d' % rng.choice(rem), 'get %d' % rng.choice(others)]
+                jobs.append(({'mode': mode, 'cap': '64', 'hash': 'const', 'init': '1.2.3.4.5.6'}, [w, r1, r2], 'dfs', n, ctx['seed'] + k, ('--pb', '2')))
+            jobs.append(({'mode': mode, 'cap': '64', 'hash': 'const', 'init': '1.2.3.4.5.6'}, [['ext 6', 'del 5'], ['get 4', 'get 4'], ['get 5', 'get 4']], 'dfs', n, ctx['seed'], ('--pb', '2')))
         do_search(ctx, H, jobs, name, classify=lambda c, h, f, name=name: {'harness': name})
     return None
